@@ -10,7 +10,10 @@ open Gossamer Gossamer.C20
    output: one entry per op joined by `;`, then ` w=<curPv>,<eqPv>,<curPc>,<eqPc> t=<thr> G<pcghost>`
             import entry = `<res>:<ghost>,<finalized>,<estimate>,<completable>`   (`~` when the prevote
             phase is intolerant: the GHOST is then not unique), `g` entry = `G<precommit ghost>` (`G~` when the
-            precommit phase is intolerant). -/
+            precommit phase is intolerant).
+           `spec=` is printed when the paper definitions over the imported votes give another trace; no claim
+           is made (spec := model) for a prefix whose precommits are intolerant, nor for lines with a target
+           outside the chain. -/
 
 def natList? (s : String) : Option (List Nat) := (s.splitOn ",").mapM (·.toNat?)
 
@@ -61,7 +64,7 @@ def stepCmd (t : Tree) (ws : List Nat) (a : TraceAcc) (c : Cmd) : TraceAcc :=
     let seen := a.seen ++ [o]
     let m := showRes res ++ ":" ++
       (if modelIntol ws r false then "~" else showState r.ghost r.fin r.est r.compl)
-    let s := showRes res ++ ":" ++
+    let s := if !tolerant ws seen true then m else showRes res ++ ":" ++
       (if !tolerant ws seen false then "~" else
         showState (specGhost t ws seen false) (specFinalized t ws seen) (specEstimate t ws seen)
           (specCompletable t ws seen))
